@@ -266,7 +266,14 @@ impl<T> OneShotShared<T> {
         }
       }
     } else if current_state == STATE_TAKEN {
-      Err(TryRecvError::Empty) // Already taken, effectively empty for subsequent calls
+      // Already taken: nothing more can ever arrive. Empty while a sender handle is
+      // alive, Disconnected once the last one is gone (so that the re-check after
+      // registering a waker in poll_recv cannot miss the last sender leaving).
+      if self.sender_count.load(Ordering::Acquire) == 0 {
+        Err(TryRecvError::Disconnected)
+      } else {
+        Err(TryRecvError::Empty)
+      }
     } else if current_state == STATE_CLOSED {
       Err(TryRecvError::Disconnected)
     } else {
